@@ -31,11 +31,16 @@ LIM = 2**30 - 1
 
 CFG0 = dict(scan=False, incAccess=False, incNmne=False, capNmne=False, incUsers=False, lo=0, med=5, hi=10,
             nIp=0, nWc=0, nPort=0, nProto=0, nRules=0, slot=0, nSvc=0, nApp=0, nFold=0, nNic=0, nFiles=0, nPorts=0)
-TRUTH0 = dict(exists=False, nodeOn=False, op=0, actual=0, visible=0, count=0, count2=0, enabled=False,
+TRUTH0 = dict(exists=False, nodeOn=False, op=0, actual=0, visible=0, count=0, count2=0, enabled=False, scanned=False, last=0,
               inN=0, inD=1, outN=0, outD=1, nmIn=0, nmInPrev=0, nmOut=0, nmOutPrev=0, local=False, remote=0,
               rule=False, action=0, sIp=0, sWc=0, sPort=0, dIp=0, dWc=0, dPort=0, proto=0)
 EVENT0 = dict(ev="Leaf", kind="", cfg=CFG0, truth=TRUTH0, obs={}, size={}, contains=True, nested=True, hasFlat=False,
               flat=False, bad=0, od="", ad="", where="", exc="", inObs=False)
+
+DRIFT_FOLDER = ("observations in which a folder's visible status differs from the value at the last folder scan the "
+                "observation saw (not scanned yet, or changed since without a folder scan): the leaf does not track it")
+DRIFT_FOLDER_OS = ("... of which after a folder scan had been seen (visible status changed without a completed folder scan, "
+                   "e.g. by a node OS scan)")
 
 NOT_PINNED = [
     "link / NIC-traffic band at an exact ninth of the capacity (k or k+1 admitted) and above 100 % (any band)",
@@ -369,7 +374,9 @@ class ObsWalker:
         nm = ((scenario_cfg.get("simulation") or {}).get("network") or {}).get("nmne_config") or {}
         self.capture_nmne = bool(nm.get("capture_nmne", False))
         self.prev_nmne: Dict[Tuple, Tuple[int, int]] = {}
+        self.folder_last: Dict[str, int] = {}
         self.notes: Dict[str, int] = {}
+        self.drift: Dict[str, int] = {}
 
     def note(self, what: str):
         self.notes[what] = self.notes.get(what, 0) + 1
@@ -513,11 +520,23 @@ class ObsWalker:
                 if f.name == fd["name"] and not f.deleted:
                     folder = f
         cfg = cfg_rec(scan=h["fs_scan"], nFiles=h["num_files"])
+        # memory of the leaf (ObsEncoding!FolderEnc): the visible status at the last observation at which the folder's
+        # scanned-this-step flag was set while the folder existed on a node that was ON; 0 before
+        last = self.folder_last.get(path, 0)
         if folder is None:
-            truth = truth_rec(exists=False, nodeOn=on)
+            truth = truth_rec(exists=False, nodeOn=on, last=last)
         else:
-            truth = truth_rec(exists=True, nodeOn=on, actual=folder.health_status.value,
-                              visible=folder.visible_health_status.value)
+            scanned = bool(folder._scanned_this_step)
+            vis = folder.visible_health_status.value
+            truth = truth_rec(exists=True, nodeOn=on, actual=folder.health_status.value, visible=vis, scanned=scanned, last=last)
+            if scanned and on:
+                self.folder_last[path] = vis
+            elif scanned:
+                self.note("folder scan completed while its node was not ON (memory of the leaf left unchanged)")
+            if h["fs_scan"] and on and self.folder_last.get(path, 0) != vis:
+                self.drift[DRIFT_FOLDER] = self.drift.get(DRIFT_FOLDER, 0) + 1
+                if last != 0 and not scanned:
+                    self.drift[DRIFT_FOLDER_OS] = self.drift.get(DRIFT_FOLDER_OS, 0) + 1
         o, z, ok = _scalar(space, obs, {"health_status": ("health_status",)})
         o["n_files"] = _nkeys(_sub(obs, "FILES"))
         z["n_files"] = _nkeys(_sub(space, "FILES")) + 1
@@ -848,6 +867,9 @@ class ComponentBench:
         for label, thunk in fn(c, t):
             if self.skip(label, t):
                 continue
+            truth = t
+            if isinstance(thunk, tuple):  # a later step of a sequence: (thunk, the truth of that step)
+                thunk, truth = thunk
             try:
                 obs, space, names, extra_o, extra_z = thunk()
             except Exception as exc:  # noqa - repository code raised: an event, not a crash
@@ -856,13 +878,13 @@ class ComponentBench:
             o, z, ok = _scalar(space, obs, names)
             o.update(extra_o)
             z.update(extra_z)
-            out.append((label, leaf_event(kind, c, t, o, z, ok)))
+            out.append((label, leaf_event(kind, c, truth, o, z, ok)))
         return out
 
     def skip(self, label: str, t: Dict) -> bool:
         """quick tier: a component that is present on a node that is ON goes through its own class every time and
         through the parent observation every fourth time (thorough: both, always)."""
-        if self.thorough or not label.startswith("via-"):
+        if self.thorough or not label.startswith("via-") or "-seq-" in label:  # sequences are never thinned
             return False
         return bool(t["exists"] and t["nodeOn"]) and self.n % 4 != 0
 
@@ -928,34 +950,69 @@ class ComponentBench:
         yield f"via-host-{how}", lambda: (_sub(ho.observe(st), "FOLDERS", 1, "FILES", 1), _sub(ho.space, "FOLDERS", 1, "FILES", 1), names, {}, {})
 
     def _k_folder(self, c, t):
+        """The folder leaf has memory under file_system_requires_scan (ObsEncoding!FolderEnc): a FRESH observation
+        object is first driven into the memory state `t.last` through real observe() calls - a scan-completing state
+        whose visible status is `last` (or nothing at all: the one-shot case, memory 0) and, every third time, a
+        non-scanning state in which the visible status has changed without a folder scan - then it is given the
+        generator state (event 1) and finally a non-scanning state with yet another visible status (event 2: shows
+        the memory left by event 1)."""
         from primaite.game.agent.observations.file_system_observations import FolderObservation
 
         names = {"health_status": ("health_status",)}
-        for scanned in (False, True):
-            how = "present" if t["exists"] else ("deleted", "missing")[self.n % 2]
-            folders, deleted = self._fs(folder_exists=how == "present",
-                                        folder={"health_status": t["actual"], "visible_status": t["visible"], "scanned_this_step": scanned})
-            if how == "missing":
+        how = "present" if t["exists"] else ("deleted", "missing")[self.n % 2]
+
+        def fstate(exists_how, on, actual, visible, scanned):
+            folders, deleted = self._fs(folder_exists=exists_how == "present",
+                                        folder={"health_status": actual, "visible_status": visible, "scanned_this_step": scanned})
+            if exists_how == "missing":
                 deleted = {}
-            st = self.host_state(on=t["nodeOn"], folders=folders, deleted_folders=deleted)
+            return self.host_state(on=on, folders=folders, deleted_folders=deleted)
 
-            def cnt(o, s):
-                return {"n_files": _nkeys(_sub(o, "FILES"))}, {"n_files": _nkeys(_sub(s, "FILES")) + 1}
+        seq, plan = [], "one-shot"
+        if c["scan"]:
+            if t["last"] != 0 or self.n % 2 == 0:
+                seq.append(fstate("present", True, 1, t["last"], True))
+                plan = "after-scan"
+            if self.n % 3 == 0:
+                seq.append(fstate("present", True, 1, (t["last"] + 1) % 6, False))
+                plan += "+visible-changed-without-scan"
+        cur = fstate(how, t["nodeOn"], t["actual"], t["visible"], t["scanned"])
+        v2, a2 = (t["visible"] + 2) % 6, (t["actual"] + 1) % 6
+        after = fstate("present", True, a2, v2, False)
+        nxt = t["visible"] if (t["exists"] and t["nodeOn"] and t["scanned"]) else t["last"]  # ObsEncoding!FolderNext
+        t2 = truth_rec(exists=True, nodeOn=True, actual=a2, visible=v2, scanned=False, last=nxt if c["scan"] else 0)
 
-            if t["nodeOn"]:
-                def direct(st=st):
-                    ob = FolderObservation(where=self.NODES + ["n", "file_system", "folders", "fold"], files=[], num_files=c["nFiles"],
-                                           include_num_access=False, file_system_requires_scan=c["scan"])
-                    o, s = ob.observe(st), ob.space
-                    return (o, s, names) + cnt(o, s)
-                yield f"direct-{how}-scanned_this_step={scanned}", direct
+        def cnt(o, s):
+            return {"n_files": _nkeys(_sub(o, "FILES"))}, {"n_files": _nkeys(_sub(s, "FILES")) + 1}
 
-            def via(st=st):
-                ho = self._host_obs(fresh=True, folders=[{"folder_name": "fold"}], num_folders=1, num_files=c["nFiles"],
-                                    file_system_requires_scan=c["scan"])
-                o, s = _sub(ho.observe(st), "FOLDERS", 1), _sub(ho.space, "FOLDERS", 1)
-                return (o, s, names) + cnt(o, s)
-            yield f"via-host-{how}-scanned_this_step={scanned}", via
+        def make(direct):
+            if direct:
+                ob = FolderObservation(where=self.NODES + ["n", "file_system", "folders", "fold"], files=[], num_files=c["nFiles"],
+                                       include_num_access=False, file_system_requires_scan=c["scan"])
+                return ob, (lambda o: o), (lambda: ob.space)
+            ho = self._host_obs(fresh=True, folders=[{"folder_name": "fold"}], num_folders=1, num_files=c["nFiles"],
+                                file_system_requires_scan=c["scan"])
+            return ho, (lambda o: _sub(o, "FOLDERS", 1)), (lambda: _sub(ho.space, "FOLDERS", 1))
+
+        for direct in ((True, False) if t["nodeOn"] else (False,)):
+            tag = ("direct" if direct else "via-host") + f"-seq-{how}-{plan}"
+            box = {}
+
+            def first(direct=direct, box=box):
+                ob, pick, space = make(direct)
+                box["ob"], box["pick"], box["space"] = ob, pick, space
+                for st in seq:
+                    ob.observe(st)
+                o, sp = pick(ob.observe(cur)), space()
+                return (o, sp, names) + cnt(o, sp)
+            yield tag, first
+
+            def second(box=box):
+                if "ob" not in box:
+                    raise RuntimeError("previous observe() of this sequence raised")
+                o, sp = box["pick"](box["ob"].observe(after)), box["space"]()
+                return (o, sp, names) + cnt(o, sp)
+            yield tag + "-then-no-scan", (second, t2)
 
     @staticmethod
     def _nmne(tin, tout):
@@ -1454,6 +1511,9 @@ def run_variant(prop: str, v: Dict[str, Any], seed: int, stats: Dict[str, Any]) 
             for k, n_ in w.notes.items():
                 stats.setdefault("notes", {})
                 stats["notes"][k] = stats["notes"].get(k, 0) + n_
+            for k, n_ in w.drift.items():
+                stats.setdefault("drift", {})
+                stats["drift"][k] = stats["drift"].get(k, 0) + n_
     if prop == "C02" and digests:
         traces.append(trace(prop, digests, {"scenario": label, "what": "space digests per episode", "note": v.get("note", "")},
                             v["constant"], {"scenario": label}))
